@@ -6,6 +6,7 @@ import (
 	"fmt"
 	"math"
 	"os"
+	"runtime/debug"
 	"strconv"
 	"strings"
 	"testing"
@@ -76,7 +77,7 @@ func register[C any](name string, check func(C) *Failure) {
 		if err := json.Unmarshal(raw, &c); err != nil {
 			return failf("cannot decode replay case: %v", err)
 		}
-		return check(c)
+		return guard(func() *Failure { return check(c) })
 	}
 }
 
@@ -138,6 +139,17 @@ func TestReplay(t *testing.T) {
 		t.Fatalf("replay fails: %s", f.Msg)
 	}
 	fmt.Printf("REPLAY-PASSES check=%s\n", r.Check)
+}
+
+// guard turns a panic inside a check (in the library or in the harness) into a failure with
+// the stack, so that the case is still written as a replay.
+func guard(f func() *Failure) (res *Failure) {
+	defer func() {
+		if r := recover(); r != nil {
+			res = failf("panic: %v\n%s", r, debug.Stack())
+		}
+	}()
+	return f()
 }
 
 /* ---------- comparison helpers ---------- */
